@@ -1,6 +1,16 @@
 import Driver.FilterIO
 open Driver Driver.FilterIO AGH AGH.Filter
 
+/-- sequence mode: configuration, engines and the model of the dnsproxy cache -/
+structure SeqState where
+  cs : Case
+  e : Engines
+  /-- oracle: miekg/dns can pack and unpack the scripted response (else dnsproxy never serves it from the cache) -/
+  packable : Bool
+  /-- oracle: the answer section after the Pack/Unpack round trip (what the cache holds) -/
+  stored : List RR
+  cache : Cache
+
 /-- One case.  The model runs on Layer B engines (computed from the rule texts);
 the real urlfilter verdicts shipped with the case are only a cross-check. -/
 def stepQ (fs : List String) : Option String := do
@@ -20,9 +30,54 @@ def stepQ (fs : List String) : Option String := do
       let agree := mOut == renderOutcome obs
       pure (verdict agree (C02.check e cs.conf cs.up cs.q obs) shown)
 
-def step (_ : Unit) (line : String) : Unit × String :=
-  match splitTab line with
-  | "C02.q" :: rest => ((), (stepQ rest).getD "bad-op")
-  | _ => ((), "bad-op")
+/-- `C02.sreset <case>`: new configuration, empty cache -/
+def stepReset (fs : List String) : Option (SeqState × String) := do
+  let (ins, impl) ← splitArrow fs
+  let ((packable, stored), rest) ← (do let p ← bool; let l ← listOf rr; pure (p, l) : P (Bool × List RR)).run ins
+  let (cs, _) ← parseCase.run rest
+  let e ← ruleEnginesOf cs
+  let ok := impl == ["reset"] && (engineMismatch cs e).isNone
+  pure ({ cs := cs, e := e, packable := packable, stored := stored, cache := [] }, verdict ok none "reset")
 
-def main : IO Unit := run step ()
+/-- `C02.sq name type`: one query of the sequence; the spec is the per-query C02
+predicate w.r.t. the upstream message the step works on (fresh or stored) -/
+def stepSQ (s : SeqState) (fs : List String) : Option (SeqState × String) := do
+  let (ins, impl) ← splitArrow fs
+  match ins with
+  | [qn, qt] =>
+    let q : Query := { name := ← hexDecode qn, qtype := ← qt.toNat? }
+    let hit := (s.cache.lookup q).isSome
+    let used := usedUpstream s.cache s.cs.up q
+    -- what gets stored on a cacheable miss is the round-tripped form of the answer
+    let (m, cache0) := handleCached s.e s.cs.conf s.cache s.cs.up q
+    let cache' := if cache0.length > s.cache.length then
+        { name := AGH.Bytes.lower q.name, qtype := q.qtype, msg := agedCopy { s.cs.up with answer := s.stored } } :: s.cache
+      else cache0
+    let mOut := renderOutcome m
+    let shown := (if hit then "cached:" else "fresh:") ++ classOf s.cs.conf (handle s.e s.cs.conf used q) ++ "\t" ++ mOut
+    let s' := { s with cache := if s.packable then cache' else s.cache }
+    if impl.head? == some "PANIC" then pure (s', verdict false (some "impl-panic") shown)
+    else
+      let (obs, _) ← outcomeP.run impl
+      let agree := mOut == renderOutcome obs
+      let why := (C02.check s.e s.cs.conf used q obs).map (fun w => (if hit then "cache-hit:" else "") ++ w)
+      pure (s', verdict agree why shown)
+  | _ => none
+
+def step (st : Option SeqState) (line : String) : Option SeqState × String :=
+  match splitTab line with
+  | "C02.q" :: rest => (st, (stepQ rest).getD "bad-op")
+  | "C02.sreset" :: rest =>
+    match stepReset rest with
+    | some (s, out) => (some s, out)
+    | none => (none, "bad-op")
+  | "C02.sq" :: rest =>
+    match st with
+    | some s =>
+      match stepSQ s rest with
+      | some (s', out) => (some s', out)
+      | none => (st, "bad-op")
+    | none => (st, "bad-op")
+  | _ => (st, "bad-op")
+
+def main : IO Unit := run step none
